@@ -74,6 +74,13 @@ func makeRequest(kind string, session int, system []byte) ast.HSMSMessage {
 		return m
 	case "undefined":
 		return ast.NewHSMSControlMessage([]byte{byte(session >> 8), byte(session), 0, 0, 0, 8, system[0], system[1], system[2], system[3]})
+	case "ptype1:select.req", "ptype1:deselect.req", "ptype1:linktest.req", "ptype255:select.req":
+		st := map[string]byte{"select.req": 1, "deselect.req": 3, "linktest.req": 5}[kind[strings.Index(kind, ":")+1:]]
+		pt := byte(1)
+		if strings.HasPrefix(kind, "ptype255") {
+			pt = 255
+		}
+		return ast.NewHSMSControlMessage([]byte{byte(session >> 8), byte(session), 0, 0, pt, st, system[0], system[1], system[2], system[3]})
 	case "undefined-ptype":
 		return ast.NewHSMSControlMessage([]byte{byte(session >> 8), byte(session), 0, 0, 1, 1, system[0], system[1], system[2], system[3]})
 	case "data message":
@@ -133,7 +140,7 @@ func checkC14(c c14Case) (ci caseInfo, err error) {
 			}
 		})
 		ci.label("rsp-from:" + c.ReqKind)
-		if k := c.ReqKind; strings.Contains(k, ":") {
+		if k := c.ReqKind; strings.Contains(k, ":") && !strings.HasPrefix(k, "ptype") {
 			k = k[strings.Index(k, ":")+1:]
 			if k == needs {
 				needs = c.ReqKind
@@ -230,7 +237,7 @@ func TestC14(t *testing.T) {
 		run(c14Case{Ctor: "deselect.rsp", ReqKind: "deselect.req", Session: sess, Code: int(r >> 32 & 0xFF), System: rsys()})
 	}
 	// all status codes, all request kinds for every response constructor
-	kinds := []string{"raw:select.req", "raw:deselect.req", "raw:linktest.req", "decoded:select.req", "decoded:deselect.req", "decoded:linktest.req", "select.req", "select.rsp", "deselect.req", "deselect.rsp", "linktest.req", "linktest.rsp", "reject.req", "separate.req", "undefined", "undefined-ptype", "data message"}
+	kinds := []string{"ptype1:select.req", "ptype1:deselect.req", "ptype1:linktest.req", "ptype255:select.req", "raw:select.req", "raw:deselect.req", "raw:linktest.req", "decoded:select.req", "decoded:deselect.req", "decoded:linktest.req", "select.req", "select.rsp", "deselect.req", "deselect.rsp", "linktest.req", "linktest.rsp", "reject.req", "separate.req", "undefined", "undefined-ptype", "data message"}
 	for code := 0; code < 256; code++ {
 		for _, ctor := range []string{"select.rsp", "deselect.rsp", "linktest.rsp"} {
 			for _, k := range kinds {
